@@ -183,14 +183,14 @@ impl RemotePathState {
 //@|     // every queued request is answered, each with the same verdict: Ok iff a path is known, else the lookup's error
 //@|     final(self).pending_resolve_requests@.len() == 0,
 //@|     all_answered(old(self).pending_resolve_requests@, old(self).paths@, address_lookup_error),
-//@rw R27 1
-//@- for tx in self.pending_resolve_requests.drain(..) {
-//@+ let drained_ = self.pending_resolve_requests.drain_all(); let ghost q0 = drained_@; for tx in it: drained_ {
+//@rwx R27 1
+//@- for (\w+) in self\.pending_resolve_requests\.drain\(\.\.\) \{
+//@+ let drained_ = self.pending_resolve_requests.drain_all(); let ghost q0 = drained_@; for \1 in it: drained_ {
 //@loop 1
 //@| invariant it.seq() == q0, forall|i: int| 0 <= i < it.index@ ==> #[trigger] answered(q0[i], result),
-//@rw R9 1
-//@- tx.send(result.clone()).ok();
-//@+ tx.send(result_clone(&result)).ok();
+//@rwx R9 1
+//@- (\w+)\.send\(result\.clone\(\)\)\.ok\(\);
+//@+ \1.send(result_clone(&result)).ok();
 //@atend
 //@| proof { assert(flush_result(old(self).paths@, address_lookup_error, result)); }
 //@end
